@@ -63,17 +63,13 @@ theorem foldl_enable_nodup (calls : List (String × Nat)) (acc : List Sec) (h : 
 
 theorem serverOpn_eq (srv : SrvCfg) (o : Opn) :
     serverOpn srv o = if acceptable srv o = true then .accept ⟨o.policy, o.mode⟩ else .reject := by
-  obtain ⟨pol, cert, body, ver, tok, mode⟩ := o
   unfold serverOpn readChunkOpn handleOpen acceptable freshChan
-  cases hk : Gen.SrvSec.opnChecksEnabled <;> cases he : srv.enabled.contains (⟨pol, mode⟩ : Sec) <;>
-  by_cases hp : pol = policyNone
-  all_goals first
-    | (subst hp
-       by_cases hb : body = .plain <;> by_cases hv : ver = 0 <;> by_cases ha : tok = 0 <;>
-         by_cases hm : mode = modeNone <;> cases hs : supported policyNone <;>
-         simp_all [certUsable])
-    | (cases cert <;> by_cases hb : body = .secured <;> by_cases hv : ver = 0 <;>
-         by_cases ha : tok = 0 <;> by_cases hs : supported pol = true <;>
-         simp_all [certUsable])
+  by_cases hp : o.policy = policyNone
+  · by_cases hb : o.body = .plain <;> by_cases hv : o.protoVer = 0 <;> by_cases ha : o.authTok = 0 <;>
+      by_cases hm : o.mode = modeNone <;> cases hs : supported policyNone <;>
+      simp [hp, hb, hv, ha, hm, hs, certUsable]
+  · cases hc : o.cert <;> by_cases hb : o.body = .secured <;> by_cases hv : o.protoVer = 0 <;>
+      by_cases ha : o.authTok = 0 <;> by_cases hs : supported o.policy = true <;>
+      simp [hp, hb, hv, ha, hs, certUsable]
 
 end Opcua.SrvSec
